@@ -84,7 +84,7 @@ def check(case) -> CaseResult:
         run = AsyncRun(spec)
         recs = []
         for e, n in enumerate(spec["episodes"]):
-            gs = run.gs0.replace(eps=onp.int32(e))
+            gs = run.start_state(e)
             _, rec = run.episode_run(gs, n, budget_s=30.0)
             recs.append(rec)
         A = run.trace.by_key()
@@ -125,7 +125,7 @@ def check(case) -> CaseResult:
                 res.label("horizon_shorter_than_recorded")
             roll = jax.jit(functools.partial(graph.rollout, max_steps=N, carry_only=True))
             for e in range(len(spec["episodes"])):
-                gs = compiledrun.init_like(graph, run.gs0, eps=e)
+                gs = compiledrun.init_like(graph, run.starts[e], eps=e)
                 out = roll(gs)
                 jax.block_until_ready(out.step)
                 B = run.trace.by_key()
